@@ -240,6 +240,17 @@ def run_lines(cmd, lines, nbatch=None):
     return outs, errs
 
 
+def prop_modules(prop, lean_dir=None):
+    """the theorem modules of a property: Props/<id>.lean and any Props/<id>_*.lean (history-level theorems that have to
+    come later in the import order)."""
+    d = os.path.join(lean_dir or LEAN_DIR, 'TrompModel', 'Props')
+    out = []
+    for f in sorted(os.listdir(d)):
+        if f == prop + '.lean' or (f.startswith(prop + '_') and f.endswith('.lean')):
+            out.append('TrompModel.Props.' + f[:-5])
+    return out
+
+
 def build_lean(prop=None, lean_dir=None):
     """lake build of the driver and of the property's theorem module (a failure is a failed proof
     obligation).  Only the modules this property needs are built, so that a broken obligation of another
@@ -249,8 +260,8 @@ def build_lean(prop=None, lean_dir=None):
     if os.environ.get('VERIF_SKIP_LEAN') == '1' and lean_dir == LEAN_DIR:      # seeded-variant runs: the Lean side is unchanged
         return os.path.join(LEAN_DIR, '.lake', 'build', 'bin', 'tmodel')
     targets = ['tmodel']
-    if prop and os.path.exists(os.path.join(lean_dir, 'TrompModel', 'Props', prop + '.lean')):
-        targets.append('TrompModel.Props.' + prop)
+    if prop:
+        targets += prop_modules(prop, lean_dir)
     r = sh(['lake', 'build'] + targets, cwd=lean_dir)
     if r.returncode != 0:
         raise BuildError('lake build %s failed:\n' % ' '.join(targets) + (r.stdout + r.stderr)[-6000:])
@@ -289,42 +300,42 @@ def lean_audit(prop, lean_dir=None):
                 m = FORBIDDEN_TOKENS.search(src)
                 if m:
                     problems.append('%s: forbidden token %r' % (os.path.join(root, f), m.group(0)))
-    pfile = os.path.join(LEAN_DIR, 'TrompModel', 'Props', prop + '.lean')
     thms = []
-    if os.path.exists(pfile):
+    mods = prop_modules(prop, LEAN_DIR)
+    decls = []
+    for mod in mods:
+        pfile = os.path.join(LEAN_DIR, *mod.split('.')) + '.lean'
         src = strip_comments(open(pfile).read())
         ns = re.findall(r'^namespace\s+(\S+)', src, flags=re.M)
         prefix = (ns[0] + '.') if ns else ''
-        names = re.findall(r'^theorem\s+(\S+)', src, flags=re.M)
-        if names:
-            probe = os.path.join(LEAN_DIR, '.lake', 'audit_%s.lean' % prop)
-            os.makedirs(os.path.dirname(probe), exist_ok=True)
-            with open(probe, 'w') as fh:
-                fh.write('import TrompModel.Props.%s\n' % prop)
-                for n in names:
-                    fh.write('#print axioms %s%s\n' % (prefix, n))
-            r = sh(['lake', 'env', 'lean', probe], cwd=LEAN_DIR)
-            out = r.stdout + r.stderr
-            if r.returncode != 0:
-                problems.append('axiom audit failed: ' + out[-2000:])
-            blocks = re.split(r"(?=')", out)
-            for n in names:
-                full = prefix + n
-                m = re.search(r"'%s' depends on axioms: \[(.*?)\]" % re.escape(full), out, flags=re.S)
-                m0 = re.search(r"'%s' does not depend on any axioms" % re.escape(full), out)
-                if m:
-                    ax = [a.strip() for a in m.group(1).replace('\n', ' ').split(',') if a.strip()]
-                elif m0:
-                    ax = []
-                else:
-                    ax = None
-                    problems.append('no axiom report for ' + full)
-                if ax is not None:
-                    bad = [a for a in ax if a not in ALLOWED_AXIOMS]
-                    if bad:
-                        problems.append('%s depends on %s' % (full, bad))
-                thms.append((full, ax))
-            del blocks
+        decls += [prefix + n for n in re.findall(r'^theorem\s+(\S+)', src, flags=re.M)]
+    if decls:
+        probe = os.path.join(LEAN_DIR, '.lake', 'audit_%s.lean' % prop)
+        os.makedirs(os.path.dirname(probe), exist_ok=True)
+        with open(probe, 'w') as fh:
+            for mod in mods:
+                fh.write('import %s\n' % mod)
+            for n in decls:
+                fh.write('#print axioms %s\n' % n)
+        r = sh(['lake', 'env', 'lean', probe], cwd=LEAN_DIR)
+        out = r.stdout + r.stderr
+        if r.returncode != 0:
+            problems.append('axiom audit failed: ' + out[-2000:])
+        for full in decls:
+            m = re.search(r"'%s' depends on axioms: \[(.*?)\]" % re.escape(full), out, flags=re.S)
+            m0 = re.search(r"'%s' does not depend on any axioms" % re.escape(full), out)
+            if m:
+                ax = [a.strip() for a in m.group(1).replace('\n', ' ').split(',') if a.strip()]
+            elif m0:
+                ax = []
+            else:
+                ax = None
+                problems.append('no axiom report for ' + full)
+            if ax is not None:
+                bad = [a for a in ax if a not in ALLOWED_AXIOMS]
+                if bad:
+                    problems.append('%s depends on %s' % (full, bad))
+            thms.append((full, ax))
     ok = [t for t in thms if t[1] is not None and all(a in ALLOWED_AXIOMS for a in t[1])]
     return dict(obligations=len(thms), discharged=len(ok) if not [p for p in problems if 'forbidden token' in p] else 0,
                 theorems=thms, problems=problems)
@@ -453,8 +464,12 @@ def tie_check(prop, lean_dir=None):
 
 
 def leanchecker(prop):
-    r = sh(['lake', 'env', 'leanchecker', 'TrompModel.Props.' + prop], cwd=LEAN_DIR)
-    return r.returncode == 0, (r.stdout + r.stderr)[-1500:]
+    ok, text = True, ''
+    for mod in prop_modules(prop):
+        r = sh(['lake', 'env', 'leanchecker', mod], cwd=LEAN_DIR)
+        ok = ok and r.returncode == 0
+        text += (r.stdout + r.stderr)[-800:]
+    return ok, text
 
 
 # ------------------------------------------------------------------------------------------
